@@ -125,6 +125,7 @@ class PrecipitateBase(GenericModel):
 
         #Temporary storage variables
         self._precBetaTemp = [None for _ in range(len(self.phases))]    #Composition of nucleate (found from driving force)
+        self._chemDGTemp = [0 for _ in range(len(self.phases))]         #Chemical (molar) driving force, without the strain energy
 
     def toDict(self):
         '''
@@ -654,7 +655,7 @@ class PrecipitateBase(GenericModel):
             # Compute driving force and precipitate composition (which helps with growth rate and impingement in multicomponent systems)
             # If driving force is negative, then we can skip the rest of the calculations (no nucleation barrier and no nucleation rate)
             aspectRatio = precParams.shapeFactor.aspectRatio(self.pData.Rcrit[self.pData.n, p])
-            _, volDG, self._precBetaTemp[p] = nucfuncs.volumetricDrivingForce(self.therm, xComp, T, precParams, aspectRatio, self.removeCache)
+            self._chemDGTemp[p], volDG, self._precBetaTemp[p] = nucfuncs.volumetricDrivingForce(self.therm, xComp, T, precParams, aspectRatio, self.removeCache)
             Y.drivingForce[0,p] = volDG
             if volDG < 0:
                 continue
